@@ -111,10 +111,42 @@ def admissible_zones(lang='en'):
 
 # ---------------------------------------------------------------- months, words
 
+# What the words of the two shipped languages mean, independently of config.json: the tables of config.json say which words
+# exist (the "configured" spellings), this dictionary says what an English or Turkish word means. A table entry that gives a
+# known word another meaning (one wrong number among many) makes the oracle and the implementation disagree.
+INDEPENDENT_MONTHS = {
+    'en': {'january': 1, 'february': 2, 'march': 3, 'april': 4, 'may': 5, 'june': 6, 'july': 7, 'august': 8, 'september': 9, 'october': 10,
+           'november': 11, 'december': 12, 'jan': 1, 'feb': 2, 'mar': 3, 'apr': 4, 'jun': 6, 'jul': 7, 'aug': 8, 'sep': 9, 'sept': 9, 'oct': 10, 'nov': 11, 'dec': 12},
+    'tr': {'ocak': 1, 'şubat': 2, 'subat': 2, 'mart': 3, 'nisan': 4, 'mayıs': 5, 'mayis': 5, 'haziran': 6, 'temmuz': 7, 'ağustos': 8, 'agustos': 8,
+           'eylül': 9, 'eylul': 9, 'ekim': 10, 'kasım': 11, 'kasim': 11, 'aralık': 12, 'aralik': 12,
+           'oca': 1, 'şub': 2, 'sub': 2, 'mar': 3, 'nis': 4, 'may': 5, 'haz': 6, 'tem': 7, 'ağu': 8, 'agu': 8, 'eyl': 9, 'eki': 10, 'kas': 11, 'ara': 12},
+}
+INDEPENDENT_CONSTANTS = {      # word -> ConstantType number (1 day 2 week 3 month 4 year 5 second 6 minute 7 hour 8 today 9 tomorrow 10 yesterday 11 now)
+    'en': {'day': 1, 'days': 1, 'week': 2, 'weeks': 2, 'month': 3, 'months': 3, 'year': 4, 'years': 4, 'second': 5, 'seconds': 5, 'minute': 6,
+           'minutes': 6, 'hour': 7, 'hours': 7, 'today': 8, 'tomorrow': 9, 'yesterday': 10, 'now': 11},
+    'tr': {'gün': 1, 'gun': 1, 'hafta': 2, 'ay': 3, 'yıl': 4, 'yil': 4, 'saniye': 5, 'dakika': 6, 'saat': 7, 'bugün': 8, 'bugun': 8, 'yarın': 9,
+           'yarin': 9, 'dün': 10, 'dun': 10, 'şimdi': 11, 'simdi': 11},
+}
+INDEPENDENT_OPERATORS = {
+    'en': {'add': '+', 'plus': '+', 'and': '+', 'with': '+', 'minus': '-', 'subtract': '-', 'without': '-', 'times': '*', 'multiplied': '*', 'mul': '*',
+           'divide': '/', 'div': '/', 'multiply': '*', 'sum': '+', 'append': '+', 'exclude': '-'},
+    'tr': {'kere': '*', 'çarpı': '*', 'carpi': '*', 'çarp': '*', 'carp': '*', 'ekle': '+', 'topla': '+', 'toplam': '+', 'eksi': '-', 'çıkar': '-',
+           'cikar': '-', 'çıkart': '-', 'cikart': '-', 'artı': '+', 'arti': '+', 'bölü': '/', 'bolu': '/'},
+}
+
+
+def _constants(lang):
+    """constant_pair of the language with the meanings of known words taken from the independent dictionary"""
+    table = dict(config()['languages'][lang]['constant_pair'])
+    known = INDEPENDENT_CONSTANTS.get(lang, {})
+    return {w: known.get(w, n) for w, n in table.items()}
+
+
 def months(lang):
-    """-> (long: {name: n}, short: {name: n}) every configured spelling"""
+    """-> (long: {name: n}, short: {name: n}) every configured spelling (meaning of known names from the independent dictionary)"""
     L = config()['languages'][lang]
-    return dict(L['long_months']), dict(L['short_months'])
+    known = INDEPENDENT_MONTHS.get(lang, {})
+    return ({w: known.get(w, n) for w, n in L['long_months'].items()}, {w: known.get(w, n) for w, n in L['short_months'].items()})
 
 
 def print_months(lang):
@@ -143,7 +175,7 @@ def duration_words(lang):
     L = config()['languages'][lang]
     grp = set(L['word_group'].get('duration_group', []))
     out = {}
-    for w, n in L['constant_pair'].items():
+    for w, n in _constants(lang).items():
         if n in DUR_UNITS and w in grp:
             out.setdefault(DUR_UNITS[n], []).append(w)
     for v in out.values():
@@ -152,9 +184,8 @@ def duration_words(lang):
 
 
 def day_words(lang):
-    L = config()['languages'][lang]
     out = {}
-    for w, n in L['constant_pair'].items():
+    for w, n in _constants(lang).items():
         if n in DAY_WORDS:
             out.setdefault(DAY_WORDS[n], []).append(w)
     return out
@@ -167,7 +198,7 @@ def operator_words(lang):
     for w, target in L['alias'].items():
         m = re.match(r'^\[OPERATOR:(.)\]$', target)
         if m:
-            out.setdefault(m.group(1), []).append(w)
+            out.setdefault(INDEPENDENT_OPERATORS.get(lang, {}).get(w, m.group(1)), []).append(w)
     return out
 
 
